@@ -145,7 +145,7 @@ class Core : public ResultCoreT<Type, Ret, E>, public FuncCore<Func> {
 
   template <bool SymmetricTransfer>
   [[nodiscard]] YACLIB_INLINE auto Impl([[maybe_unused]] InlineCore& caller) noexcept {
-    auto async_done = [&] {
+    [[maybe_unused]] auto async_done = [&] {
       YACLIB_ASSERT(kAsync != AsyncType::None);
       YACLIB_ASSERT(&caller == this || &caller == this->_self.caller);
       static constexpr bool AsyncShared = kAsync == AsyncType::Shared;
@@ -153,7 +153,14 @@ class Core : public ResultCoreT<Type, Ret, E>, public FuncCore<Func> {
       return Done<SymmetricTransfer, true>(core.template MoveOrConst<!AsyncShared>());
     };
     if constexpr (IsRun(Type)) {
-      return async_done();
+      if constexpr (kAsync != AsyncType::None) {
+        if (this->_self.caller != nullptr) {
+          return async_done();
+        }
+      }
+      // Entered as the head of a Task that was returned from a continuation or awaited: start it
+      this->_executor->Submit(*this);
+      return Noop<SymmetricTransfer>();
     } else {
       if constexpr (kAsync != AsyncType::None) {
         if (this->_self.unwrapping != 0) {
